@@ -5,5 +5,7 @@ CONSTANTS
   MaskByPosition = TRUE
   RawScriptFallback = TRUE
   MutClasses <- MutAll
+  PreOps <- PreAll
+  SkipIfSignedAddr = FALSE
 INVARIANTS SoundUpToDupKeys MutatedRejected
 CHECK_DEADLOCK FALSE
